@@ -485,8 +485,12 @@ const FLUSHED_SEQ_FILE: &str = "flushed_seq";
 
 /// Persist the last flushed WAL sequence number to a file in the WAL directory.
 pub fn persist_flushed_seq(wal_dir: &Path, seq: u64) -> Result<()> {
+    // Write-then-rename so that a crash in the middle leaves the old mark intact
+    // instead of a torn file (which reads back as 0).
     let path = wal_dir.join(FLUSHED_SEQ_FILE);
-    std::fs::write(&path, seq.to_le_bytes()).map_err(map_io_error)?;
+    let tmp_path = wal_dir.join(format!("{}.tmp", FLUSHED_SEQ_FILE));
+    std::fs::write(&tmp_path, seq.to_le_bytes()).map_err(map_io_error)?;
+    std::fs::rename(&tmp_path, &path).map_err(map_io_error)?;
     Ok(())
 }
 
